@@ -88,18 +88,25 @@ def run(ck):
 
     cm = ck.repo.mod(COM)
     fn = cm.func("heap.next_addr")
-    sets = [n for n in walk_body(fn) if isinstance(n, ast.Assign) and any(dotted(t) == "self.addr" for t in n.targets)]
-    ck.need(sets, "heap.next_addr: update of self.addr not found")
-    ok, why = _progress(sets[0].value, "self.addr", fn)
+    # final cursor and returned value as expressions of the cursor at entry (sequential substitution: temporaries, `ret = self.addr`,
+    # two-step updates and `&=` are all followed)
+    from sa.normal import state_after
+    st_ = state_after(fn.body)
+    final = st_.get("self.addr")
+    ck.need(final is not None, "heap.next_addr: update of self.addr not found")
+    ok, why = _progress(final, "self.addr", fn)
     if ok is None:
         from sa.repo import AnalysisError
         raise AnalysisError("heap.next_addr: " + why)
     # the returned value is the cursor before the update
     rets = [n for n in walk_body(fn) if isinstance(n, ast.Return)]
-    res = Resolver(fn)
-    ret_old = bool(rets) and isinstance(rets[0].value, ast.Name) and res.expand(rets[0].value) == "self.addr" and \
-        any(isinstance(n, ast.Assign) and norm(n.value) == "self.addr" and n.lineno < sets[0].lineno and
-            isinstance(n.targets[0], ast.Name) and n.targets[0].id == rets[0].value.id for n in walk_body(fn))
+    ret_old = False
+    if rets and rets[0].value is not None:
+        rv = rets[0].value
+        # value of the returned name at its definition: the entry cursor
+        pre = state_after(fn.body[:1])
+        ret_old = isinstance(rv, ast.Name) and rv.id in st_ and norm(st_[rv.id]) == "self.addr" and \
+            any(isinstance(n, ast.Assign) and norm(n.targets[0]) == rv.id and norm(n.value) == "self.addr" for n in fn.body[:2] + [x for x in fn.body if isinstance(x, ast.Assign)][:1])
     ck.ob("R1", "heap.next_addr", bool(ok) and ret_old, cm.where(fn),
           why if not ok else "the returned address is not the cursor value saved before the update")
     em = ck.repo.mod(ENV)
